@@ -381,3 +381,16 @@ package tcell
 //@   loop 2: invariant [consume] -1 <= i && bufwf(buf) && buf.buf == old(buf.buf) && len(*evs) == old(len(*evs)) && buf.off + i == old(buf.off) + ge
 //@           invariant [btn] btn == gbtn
 //@           decreases i + 1
+
+// ---------------------------------------------------------------------------
+// C03: NewEventKey normalises control runes (bit-exact, all 16/32-bit inputs)
+// ---------------------------------------------------------------------------
+
+//@ func NewEventKey
+//@   arith bv
+//@   ensures [plain] !(k == KeyRune && (ch < ' ' || ch == 0x7f)) ==> result.key == k && result.mod == mod && result.ch == ch
+//@   ensures [control] k == KeyRune && 0 <= ch && ch < ' ' ==> result.key == Key(ch) && result.ch == ch &&
+//@              result.mod == ((mod == ModNone && ch != 8 && ch != 9 && ch != 13 && ch != 27) ? ModCtrl : mod)
+//@   ensures [negative] k == KeyRune && ch < 0 ==> result.key == Key(ch) && result.ch == ch
+//@   ensures [del] k == KeyRune && ch == 0x7f ==> result.key == KeyBackspace2 && result.mod == mod && result.ch == ch
+//@   ensures [nonnil] result != nil
